@@ -28,3 +28,99 @@ prop(
                     "cut_at_window_multiple": 20, "cut_body_next_request_boundary": 20, "empty_reads_eagain": 100,
                     "empty_reads_eintr": 100, "runs_ending_in_parse_error": 10, "family_aligned_streams": 20}},
 )
+
+prop(
+    "C02",
+    title="Accepted requests are exactly those of the documented grammar, fields verbatim",
+    level="exploration",
+    technique="runtime monitoring: independent whole-stream reference parser (M1/M2) compared with the real connection on generated and corrupted streams, both directions",
+    design_ref="DESIGN.md §3 C02",
+    engine="scripted-stream",
+    rule="Base streams of 1-3 pipelined grammar requests; for each: the valid stream, every single-point corruption of the "
+         "quantifier (30 named corruptions) at every request, random double corruptions, declared lengths L-1/L/L+1, random "
+         "byte-level edits, plus a fixed list of edge streams; each under maximal reads and one random segmentation. "
+         "evaluations = executions compared with M1; distinct_nontrivial = distinct (stream, limit) for which M1 predicts at "
+         "least one delivery, interim response or error.",
+    assumptions=[
+        "M1/M2 are written from the property statements; `+N` content lengths are a don't-care and skipped",
+        "error kinds are compared as families: request-line shape / method / URI / version / any fatal header / size limit with both numbers",
+    ],
+    floors={"any": {"model_deliveries": 5000, "model_error_Method": 100, "model_error_Uri": 100, "model_error_Version": 100,
+                    "model_error_InvalidRequest": 100, "model_error_Header": 100, "model_error_SizeLimit": 50,
+                    "double_corruptions": 100}},
+)
+
+prop(
+    "C11",
+    title="A rejected request is never delivered later; parsing restarts clean after errors",
+    level="exploration",
+    technique="runtime monitoring: differential execution of a post-error connection against a fresh connection on the same continuation, step by step",
+    design_ref="DESIGN.md §3 C11",
+    engine="scripted-stream",
+    rule="Prefix A = 0-2 valid requests + one offending request (every corruption of C02, over-long request/header line, "
+         "size limit), fed under every sampled cut position (dense near the offending element), random multi-cuts and "
+         "byte-at-a-time until the error is reported, optionally with descriptors attached to a read; continuation B from "
+         "{blank lines, header-like lines, `Content-Length: 1`+blank+byte, garbage, second error, valid requests}. "
+         "evaluations = (A, cuts, B, cuts) executions compared with a fresh connection; distinct_nontrivial = distinct such "
+         "tuples in which the connection did report the parse error.",
+    assumptions=[
+        "bytes following the offending element inside the erroring read may be dropped or re-parsed (both accepted)",
+        "responses already queued before the error (100-continue of earlier requests) are drained before the comparison",
+    ],
+    floors={"any": {"errors_in_state_reqline": 100, "errors_in_state_headers": 100, "errors_with_partial_line_buffered": 100,
+                    "post_error_deliveries": 100, "cases_with_descriptors": 50, "equal_to_fresh_stepwise": 100}},
+)
+
+prop(
+    "C13",
+    title="100 Continue is sent exactly when asked for and a body is awaited",
+    level="exploration",
+    technique="runtime monitoring: output of the real connection drained after every read and parsed by an independent response reader, compared with the qualifying requests per the reference grammar",
+    design_ref="DESIGN.md §3 C13",
+    engine="scripted-stream",
+    rule="Streams of 1-3 requests mixing Expect variants (name case, padding, unsupported values, duplicates), Content-Length in "
+         "{absent,0,1,..,L-1,L,L+1}, both versions, limits {5,64,1024,51200}; segmentations: maximal, every cut in and just "
+         "after each header block, all single cuts, random multi-cuts, byte-at-a-time. After every try_read the interim "
+         "responses written so far must equal the qualifying requests whose header block ends within the consumed bytes. "
+         "evaluations = executions; distinct_nontrivial = distinct (stream, limit, cuts) with at least one qualifying request.",
+    assumptions=["M1 marks qualifying requests from the property statement", "server-level delivery of the 100 is monitored by the simulator families of C08/C13"],
+    floors={"any": {"interim_responses_seen": 500, "checked_with_no_body_byte_supplied": 50, "runs_ending_in_error": 20}},
+)
+
+prop(
+    "C14",
+    title="One-shot request parsing agrees with the incremental connection parser",
+    level="exploration",
+    technique="runtime monitoring: differential execution of Request::try_from and the real connection, both directions, on the C02 corpus",
+    design_ref="DESIGN.md §3 C14",
+    engine="scripted-stream",
+    rule="C02 corpus (valid, every corruption, double corruptions, byte edits), each slice as generated (first request + trailing "
+         "bytes), cut to exactly the first request, one byte short and one byte long. (->) accepted by the one-shot parser and "
+         "lines within 1024 => first delivered request identical; (<-) connection delivers exactly one request and an appended "
+         "sentinel request comes out intact => one-shot result identical, except GET with a body (must be Err); max_len rule "
+         "for m in {0,1,len-1,len,len+1,len+1000}. evaluations = slices judged; distinct_nontrivial = distinct slices on which "
+         "a forward or backward agreement was actually established.",
+    assumptions=["the connection runs with an effectively unlimited payload limit so that only the line limit restricts the comparison"],
+    floors={"any": {"forward_agreements": 1000, "backward_agreements": 1000, "get_with_body_rejected_by_oneshot": 50, "max_len_reached": 1000}},
+)
+
+prop(
+    "C04",
+    title="Payload and line-length limits are enforced exactly and before buffering",
+    level="exploration",
+    technique="runtime monitoring: boundary oracle on the try_read that completes the header block, and reference-grammar comparison of lines of every length 1000..1100 at every window offset",
+    design_ref="DESIGN.md §3 C04",
+    engine="scripted-stream",
+    rule="(a) limits L in {0..16,1023,1024,1025,51199,51200,51201,2^32-1} x declared n in {0,1,L-1,L,L+1,2L+1,2^32-2,2^32-1} x "
+         "header variants; the header block arrives in one read ending at the blank line's LF with no body byte, split at every "
+         "position, or sharing the read with body bytes; that very try_read must return SizeLimitExceeded(L,n) iff n > L, and "
+         "delivered bodies have exactly n <= L bytes. (b) request lines and header lines of every length 1000..1100 (with CRLF) "
+         "starting at every constructible stream offset 0..1023, under maximal reads, random cuts, byte-at-a-time and cuts "
+         "around the line's 1024th byte: rejected iff longer than 1024, by the read that supplies the 1024th byte; accepted "
+         "lines verbatim per M1. (c) server: per-connection limit fixed at accept time and 400 text (simulator family). "
+         "evaluations = executions; distinct_nontrivial = distinct (family, parameters, cuts).",
+    assumptions=["the kind of error for an over-long line is not named by the property: any request-line kind / any header kind is accepted",
+                 "bodies above 70000 bytes are only checked for non-rejection"],
+    floors={"any": {"over_limit_cases": 200, "exactly_at_limit_cases": 50, "bodies_delivered_with_exact_length": 100,
+                    "lines_exactly_1024": 500, "lines_exactly_1025": 500, "lines_over_limit": 5000, "lines_within_limit": 2000}},
+)
